@@ -160,3 +160,37 @@ vt_proof_fl! { unwind = 3; fn c34_release_step_small() { if kani::any() { releas
 vt_proof_fl! { unwind = 3; fn c34_release_step_last_slot() { release_step(TRUNK_MAX_ENTRIES - 1, 2); kani::cover!(true, "w:reached_end"); }}
 // @vt prop=C34 tier=quick feat=sp fs=600 bound="one release + one allocate from ANY valid FULL head trunk (122 entries): the released page (3, arbitrary prior contents) becomes the new head trunk" outside="-" timeout=1800 mem=16
 vt_proof_fl! { unwind = 3; fn c34_release_step_full_trunk() { release_step(TRUNK_MAX_ENTRIES, 3); kani::cover!(true, "w:full_trunk_boundary"); }}
+
+/// History across the trunk boundary: a FULL head trunk (page 1, 122 entries, the two topmost arbitrary distinct page
+/// numbers), release page 3 (arbitrary prior contents; becomes the new, empty head trunk), then three allocations.
+fn full_release_then_three_allocs() {
+    let mut st = store();
+    let top: u32 = kani::any(); let top2: u32 = kani::any();
+    kani::assume(top >= 10 && top2 >= 10 && top != top2);
+    put32(&mut st.pages[1], HDR, 0); put32(&mut st.pages[1], HDR + 4, TRUNK_MAX_ENTRIES as u32);
+    put32(&mut st.pages[1], HDR + 8 + 4 * (TRUNK_MAX_ENTRIES - 1), top);
+    put32(&mut st.pages[1], HDR + 8 + 4 * (TRUNK_MAX_ENTRIES - 2), top2);
+    let fc0 = TRUNK_MAX_ENTRIES as u32 + 1;
+    let mut fl = Freelist::with_head(1, fc0);
+    let r = core::mem::ManuallyDrop::new(fl.release(&mut st, 3));
+    assert!(r.is_ok(), "role=release_ok");
+    assert!(fl.free_count() == fc0 + 1, "role=release_adds_exactly_one_free_page");
+    let mut got = [0u32; 3]; let mut n = 0;
+    macro_rules! one { () => { match alloc_one(&mut fl, &mut st) { Some(Some(p)) => { got[n] = p; n += 1; } Some(None) => {} None => assert!(false, "role=allocate_does_not_error") } }; }
+    one!(); one!(); one!();
+    assert!(n == 3, "role=free_count_equals_pages_allocations_return");
+    macro_rules! chk { ($i:expr) => {{
+        let p = got[$i];
+        assert!(p == 3 || p == top || p == top2 || p == 1, "role=allocated_page_was_free");
+        // page 1 still carries >= 120 entries: handing it out would make them unreachable
+        assert!(p != 1, "role=trunk_still_holding_entries_not_handed_out");
+    }}; }
+    chk!(0); chk!(1); chk!(2);
+    assert!(got[0] != got[1] && got[0] != got[2] && got[1] != got[2], "role=no_page_handed_out_twice");
+    assert!(fl.free_count() == fc0 - 2, "role=allocate_removes_exactly_one_free_page");
+    assert!(fl.head_page() == 1, "role=head_back_on_old_trunk");
+    assert!(get32(&st.pages[1], HDR + 4) == TRUNK_MAX_ENTRIES as u32 - 2, "role=trunk_count_matches_remaining_entries");
+    kani::cover!(true, "w:crossed_trunk_boundary_both_ways");
+}
+// @vt prop=C34 tier=quick feat=sp fs=600 bound="history across the trunk boundary: FULL head trunk (122 entries, the two topmost arbitrary distinct), release page 3 (arbitrary prior contents), then 3 allocations" outside="the other 120 entries are zero bytes (never read by these 3 allocations); longer histories" timeout=1800 mem=16
+vt_proof_fl! { unwind = 3; fn c34_full_trunk_release_then_three_allocs() { full_release_then_three_allocs(); }}
